@@ -189,8 +189,8 @@ func runHdrFtr(c Case, emit Emitter) {
 					if err != nil {
 						return "err-save"
 					}
-					if op.Str("via") == "word" {
-						if b, err = hfWordNames(b); err != nil {
+					if v := op.Str("via"); strings.HasPrefix(v, "word") {
+						if b, err = hfWordNamesSpelt(b, strings.TrimPrefix(v, "word")); err != nil {
 							return "err-rename"
 						}
 					}
